@@ -1,5 +1,6 @@
 """Shared by C01, C02, C03, C13, C14 — the incremental engine (one model, one harness, one driver)."""
 import glob
+import hashlib
 import json
 import os
 import subprocess
@@ -131,6 +132,85 @@ def replay(c, prop, case):
                 bad = True
     if bad:
         print("VIOLATION property=%s replay=(given)" % prop)
+        return 1
+    print("no violation on this input")
+    return 0
+
+
+# ---------------------------------------------------------------- C13 only: the command layer (cmd/dawn)
+
+CLI_RULE = ("command layer: the real commands of cmd/dawn, driven through a test binary of package main (harness/build/cmd_test.go "
+            "overlaid as cmd/dawn/zz_verif_build_test.go, `go test -c -overlay`), every invocation in a process of its own, on generated "
+            "projects (3-6 targets in a chain with side branches, a source each, a generated file each, bodies through sh.exec that log "
+            "their execution outside the tree): fresh tree `dawn -n`, `dawn build -n`, `dawn build`; edit a source, `dawn -n <target>`, "
+            "`dawn -n`, `dawn build -n`, `dawn build`; edit a body and a source while index.json exists, `dawn build -n`, "
+            "`dawn --dry-run`, `dawn build`, `dawn build -n`, `dawn build`. Events are read from `--json <file>`. Judge: around "
+            "a -n invocation no body runs, no file of the project outside .dawn changes, every record file that existed is "
+            "byte-identical and a new one is empty (the command's load may refresh records and rewrite index.json); what a -n run "
+            "announces as evaluating is what the real build that follows evaluates; a real build executes exactly the bodies it announces.")
+
+
+def cli_harness(c):
+    """cmd/dawn is package main: a test binary with harness/build/cmd_test.go overlaid into it"""
+    exe = os.path.join(vcheck.BUILD, "harness-buildcli-%s" % hashlib.sha1(vcheck.REPO.encode()).hexdigest()[:8])
+    ov = {"Replace": {os.path.join(vcheck.REPO, "cmd/dawn/zz_verif_build_test.go"): os.path.join(vcheck.VERIF, "harness", "build", "cmd_test.go")}}
+    ovp = exe + ".overlay.json"
+    with vcheck.Lock("go-buildcli"):
+        with open(ovp, "w") as f:
+            json.dump(ov, f)
+        rc, o = vcheck.sh(["go", "test", "-c", "-vet=off", "-overlay", ovp, "-o", exe, "./cmd/dawn"],
+                          cwd=vcheck.REPO, env=dict(vcheck.GOENV), timeout=900)
+    if rc != 0:
+        c.log("command-layer harness build failed:\n" + o[-4000:])
+        c.broken.append("harness build (cmd/dawn, C13 command layer)")
+        c.coverage["cli_harness_build_output"] = o[-3000:]
+        return None
+    return exe
+
+
+def _cli_run(c, exe, extra_env, timeout):
+    env = dict(os.environ)
+    outp = os.path.join(vcheck.BUILD, "buildcli-%d.out" % os.getpid())
+    env.update({"VERIF_CLI_OUT": outp, "VERIF_CLI_SEED": str(c.seed), "VERIF_CLI_TIER": c.tier})
+    env.update(extra_env)
+    p = subprocess.run([exe, "-test.run", "^TestVerifC13CLI$", "-test.timeout", "20m"], stdout=subprocess.PIPE,
+                       stderr=subprocess.STDOUT, env=env, timeout=timeout, cwd=vcheck.BUILD)
+    text = open(outp, encoding="utf-8", errors="replace").read() if os.path.exists(outp) else ""
+    if os.path.exists(outp):
+        os.remove(outp)
+    _, viols, stats = parse(text)
+    return p, viols, stats
+
+
+def cli_stream(c):
+    """C13: `dawn -n`, `dawn build -n`, `dawn build` through the real command layer"""
+    exe = cli_harness(c)
+    if not exe:
+        return
+    p, viols, stats = _cli_run(c, exe, {}, 1500)
+    if p.returncode != 0 or not stats:
+        c.broken.append("command-layer harness (C13) exited %d" % p.returncode)
+        c.coverage["cli_harness_output_tail"] = p.stdout.decode("utf-8", "replace")[-2000:]
+    c.coverage["cli_harness_stats"] = stats
+    c.count("build.cli.judge", stats.get("commands", 0), sample={"judge": CLI_RULE}, hist=dict(stats))
+    for v in viols:
+        c.violation("%s (command layer): %s" % (v["kind"], v.get("detail", "")[:900]), {"input": v["input"], "kind": v["kind"]})
+
+
+def cli_replay(c, inp):
+    exe = cli_harness(c)
+    if not exe:
+        return 2
+    with tempfile.NamedTemporaryFile("w", suffix=".json", delete=False) as f:
+        json.dump(inp, f)
+    try:
+        p, viols, stats = _cli_run(c, exe, {"VERIF_CLI_REPLAY": f.name}, 600)
+    finally:
+        os.unlink(f.name)
+    for v in viols:
+        print("violation: %s: %s" % (v["kind"], v.get("detail", "")[:900]))
+    if viols or p.returncode != 0:
+        print("VIOLATION property=C13 replay=(given)")
         return 1
     print("no violation on this input")
     return 0
